@@ -1,0 +1,27 @@
+// Copyright 2026 Juan Pablo Tosso and the OWASP Coraza contributors
+// SPDX-License-Identifier: Apache-2.0
+
+//go:build !verif
+
+package corazawaf
+
+import (
+	"github.com/corazawaf/coraza/v3/types"
+	"github.com/corazawaf/coraza/v3/types/variables"
+)
+
+// Verification hooks are compiled out without the "verif" build tag.
+
+func verifPhase(*Transaction, types.RulePhase, string) {}
+
+func verifRule(*Transaction, types.RulePhase, int, *Rule, string) {}
+
+func verifOp(*Transaction, *Rule, int, variables.RuleVariable, string, string, bool) {}
+
+func verifAct(*Transaction, *Rule, string, string) {}
+
+func verifMatch(*Transaction, *Rule, []types.MatchData) {}
+
+func verifTf(*Rule, string, *byte, int, variables.RuleVariable, int, string, string) {}
+
+func verifCall(*Transaction, string) {}
